@@ -45,7 +45,9 @@ class ErrorExtraction(object):
                 except:
                     from ._traceback import write_traceback
 
-                    write_traceback(logger)
+                    # The extractor's own exception is logged as is: running
+                    # extractors on it could fail the same way again, forever.
+                    write_traceback(logger, _extract=False)
                     return {}
         return {}
 
